@@ -175,7 +175,13 @@ def run_unit(name, thorough=False, use_cache=True):
         out["failures"].append(f)
     out["vacuity_seen"] = len(vac_hit)
     nonsem = [f for f in out["failures"] if f["kind"] != "semantic"]
-    if nonsem:
+    sem = [f for f in out["failures"] if f["kind"] == "semantic"]
+    if nonsem and sem and len(vac_hit) == len(vac_lines):
+        # a clause refuted by the solver stays refuted when another query of the same run ran out of resources
+        out["failures"] = sem
+        out["status"] = "failed"
+        out["note"] = "another query of this run hit a resource limit: " + nonsem[0]["message"][:200]
+    elif nonsem:
         out["status"] = "undecided"
         out["reason"] = "verifier reported a non-semantic error: " + nonsem[0]["message"][:300]
     elif res["summary"] is None or res["summary"]["results"] is None:
